@@ -60,8 +60,8 @@ Proof. vm_compute. repeat split. Qed.
 Print Assumptions vc_all_members_preserved_refuted.
 
 (* ---- presentations ---- *)
-Theorem vp_custom_member_roundtrip : forall w m p k,
-  parse_vp (JObj m) = Some p ->
+Theorem vp_custom_member_roundtrip : forall w env m p k,
+  parse_vp env (JObj m) = Some p ->
   ~ In k (map (fun f => fst (fst f)) rawPresentation_fields) ->
   match marshal_vp w p with JObj o => lookup o k | _ => None end = option_map (fun x => f64j (f64j x)) (lookup m k).
 Proof. exact vp_custom_member. Qed.
@@ -77,8 +77,8 @@ Print Assumptions vp_context_kept_fixed.
 (* the code as found dropped them *)
 Theorem vp_context_asis_refuted :
   let d := JObj [("@context", JArr [JStr "c"; JObj [("k", JStr "v")]]); ("type", JStr "VerifiablePresentation")] in
-  match roundtrip_vp AsIs d with Some (JObj o) => lookup o "@context" | _ => None end = Some (JArr [JStr "c"]) /\
-  match roundtrip_vp Fixed d with Some (JObj o) => lookup o "@context" | _ => None end
+  match roundtrip_vp AsIs [] d with Some (JObj o) => lookup o "@context" | _ => None end = Some (JArr [JStr "c"]) /\
+  match roundtrip_vp Fixed [] d with Some (JObj o) => lookup o "@context" | _ => None end
     = Some (JArr [JStr "c"; JObj [("k", JStr "v")]]).
 Proof. vm_compute. split; reflexivity. Qed.
 Print Assumptions vp_context_asis_refuted.
